@@ -16,6 +16,8 @@ ASSUMPTIONS = [
 ]
 SPEC = {
     'quick': [('K21', 'lend', 4),
+              ('K31', 'rb', 4),
+              ('K25', 'lend', 3),
               ('K13', 'lend', 4),
               ('K0p', 'small', 3),
               ('K1', 'ar', 7),
